@@ -118,14 +118,22 @@ SPECS = {
              + [("ErrCauseCheck", "no_foreign_cause_now")],
              rule="non-trivial: some operation returned an error (each distinct chain shape counts)"),
     "C14": S(profiles=[("rejections", 0.6), ("core-mix", 0.4)], projection="PVerdict",
+             requires=CORE + ["GoTypes", "Parse", "RunRaw"],
              chk="fun c => chk_C14 (cs_hist c) (cs_impl c)",
              rule="non-trivial: the history contains a malformed input (bad op)"),
+    "C15": S(profiles=[("core-mix", 0.5), ("keys", 0.25), ("groups", 0.25)], projection="PExec", twin="encode",
+             chk2="fun c t p => chk_C15 (cs_impl c) t",
+             rule="non-trivial: at least one function's signature was rewritten (parameters wrapped into dig.In objects, results into dig.Out, variadic added, name/group moved to tags) and some Invoke executed it"),
     "C16": S(profiles=[("core-mix", 0.6), ("trees", 0.4)], projection="PExecSet", twin="permute",
              chk2="fun c t p => chk_C16 p (cs_impl c) t",
              rule="non-trivial: the permuted twin differs from the original in the order of >=2 accepted registrations, a scope creation, or the defer option"),
     "C17": S(profiles=[("dry", 1.0)], projection="PVerdict", twin="undry",
              chk2="fun c t p => chk_C17_dry (cs_hist c) (cs_impl c) ++ chk_same_verdicts 0 (cs_impl c) t",
              rule="non-trivial: the normal twin executed at least one user function"),
+    "C18": S(profiles=[("core-mix", 0.15)], projection="PVerdict", scale=0.3,
+             requires=CORE + ["GoTypes", "Parse", "RunRaw"],
+             chk="fun c => []",
+             rule="non-trivial: a raw Provide/Decorate/Invoke was accepted and its Info struct has at least one entry (counted in grammar_stream.accepted_operations_with_info)"),
     "C20": S(profiles=[("callbacks", 1.0)], projection="PFull",
              chk="fun c => chk_C20 (cs_cfg c) (cs_dur c) (cs_hist c) (cs_impl c)",
              rule="non-trivial: a function with a callback was executed"),
@@ -201,7 +209,35 @@ def make_twins(spec, cases, seed, traces=None):
             out.append((c2, []))
         elif kind == "permute":
             out.append(permute_case(c, traces[idx], rng))
+        elif kind == "encode":
+            out.append((encode_case(c, rng), []))
     return out
+
+
+def encode_case(c, rng):
+    """rewrite the signature of every function into an equivalent encoding"""
+    c2 = copy.deepcopy(c)
+    c2["id"] += "~enc"
+    for f in c2["fns"]:
+        ps = f.get("params") or []
+        # wrap a run of top-level parameters into one new parameter object
+        if ps and rng.random() < 0.7:
+            i = rng.randrange(len(ps))
+            j = rng.randrange(i, len(ps)) + 1
+            ps = ps[:i] + [dict(k="obj", fields=ps[i:j])] + ps[j:]
+            if rng.random() < 0.3:
+                ps = [dict(k="obj", fields=ps)]
+        f["params"] = ps
+        if rng.random() < 0.4:
+            f["variadic"] = True
+        rs = f.get("results") or []
+        if rs and all(r["k"] != "obj" for r in rs) and not any(r.get("as") for r in rs) and rng.random() < 0.7:
+            # positional results (sharing name/group through options) -> one result object with tags
+            f["results"] = [dict(k="obj", fields=rs)]
+        elif rs and rng.random() < 0.4 and not any(r["k"] != "obj" and (r.get("name") or r.get("group") or r.get("as")) for r in rs):
+            # nest result objects / plain results one level deeper
+            f["results"] = [dict(k="obj", fields=rs)]
+    return c2
 
 
 def permute_case(c, trace, rng):
